@@ -17,6 +17,8 @@
 package pseudonymization
 
 import (
+	"errors"
+	"fmt"
 	"strconv"
 
 	"github.com/sirupsen/logrus"
@@ -35,6 +37,20 @@ func NewDataTokenizer(tokenizer common.Pseudoanonymizer) (*DataTokenizer, error)
 	return &DataTokenizer{tokenizer}, nil
 }
 
+// ErrNotIntegerValue is returned when the value of a column with an integer token type is not an integer
+// of that width.
+var ErrNotIntegerValue = errors.New("value is not an integer of the column's token type")
+
+// numberError describes a failed integer conversion without the text that failed to convert: strconv's own
+// error quotes its input, which here is the value of a client's literal or bound parameter (or the stored
+// value on the way back), and callers log the error.
+func numberError(err error) error {
+	if numErr, ok := err.(*strconv.NumError); ok {
+		return fmt.Errorf("%w: %v", ErrNotIntegerValue, numErr.Err)
+	}
+	return ErrNotIntegerValue
+}
+
 // Tokenize the data in given context with provided settings.
 func (t *DataTokenizer) Tokenize(data []byte, context common.TokenContext, setting config.ColumnEncryptionSetting) ([]byte, error) {
 	anonymize := t.tokenizer.Anonymize
@@ -49,7 +65,7 @@ func (t *DataTokenizer) Tokenize(data []byte, context common.TokenContext, setti
 		// bitSize 32: text outside the int32 range is an error, not a silently truncated number
 		i, err := strconv.ParseInt(string(data), 10, 32)
 		if err != nil {
-			return nil, err
+			return nil, numberError(err)
 		}
 		newVal, err := anonymize(int32(i), context, common.TokenType_Int32)
 		if err != nil {
@@ -60,7 +76,7 @@ func (t *DataTokenizer) Tokenize(data []byte, context common.TokenContext, setti
 	case common.TokenType_Int64:
 		i, err := strconv.ParseInt(string(data), 10, 64)
 		if err != nil {
-			return nil, err
+			return nil, numberError(err)
 		}
 		newVal, err := anonymize(i, context, common.TokenType_Int64)
 		if err != nil {
@@ -103,7 +119,7 @@ func (t *DataTokenizer) Detokenize(data []byte, context common.TokenContext, set
 	case common.TokenType_Int32:
 		i, err := strconv.ParseInt(string(data), 10, 32)
 		if err != nil {
-			return nil, err
+			return nil, numberError(err)
 		}
 		newVal, err := t.tokenizer.Deanonymize(int32(i), context, common.TokenType_Int32)
 		if err != nil {
@@ -114,7 +130,7 @@ func (t *DataTokenizer) Detokenize(data []byte, context common.TokenContext, set
 	case common.TokenType_Int64:
 		i, err := strconv.ParseInt(string(data), 10, 64)
 		if err != nil {
-			return nil, err
+			return nil, numberError(err)
 		}
 		newVal, err := t.tokenizer.Deanonymize(i, context, common.TokenType_Int64)
 		if err != nil {
